@@ -125,7 +125,7 @@ def mutate(e, rng):
 
 def gen_cases(rng, tier: str) -> list[dict]:
     cases = []
-    for origin, e in common.expr_stream(rng, tier, common.sizes(tier, 250, 4000), depth_q=4, depth_t=6, share=0.2):
+    for origin, e in common.expr_stream(rng, tier, common.sizes(tier, 250, 4000), depth_q=4, depth_t=6, share=0.2, max_size=150):
         r1, r2 = respell(e, rng), respell(e, rng)
         kind, m = mutate(e, rng)
         cases.append({"origin": origin.split(":")[0], "a": wire.expr(e), "b": wire.expr(r1), "c": wire.expr(r2),
